@@ -1,3 +1,4 @@
+import os
 LIBS = ["libvpsc", "libcola", "libavoid", "libtopology", "libdialect"]
 HARNESS = "harness/c15.cpp"
 DRIVER_MODE = "c15"
@@ -51,14 +52,22 @@ ASSUMPTIONS = ["valid use = documented preconditions; for the Router additionall
 KF_MODES = ["kf-destroy-queued-add", "kf-delete-queued-add", "kf-notrans-delete-junction", "kf-notrans-move-attached",
             "kf-endpoint-to-deleted", "kf-notrans-conn-ctor", "kf-junction-halfconn-leak", "kf-conn-loop-on-junction",
             "kf-notrans-new-pin", "kf-duplicate-pin", "kf-cyclic-hyperedge", "kf-orth-junction-aligned-point",
-            "kf-hyperedge-leaf-junction", "kf-hyperedge-mtst-assert"]
+            "kf-hyperedge-leaf-junction", "kf-hyperedge-mtst-assert",
+            # other libraries (harness/c15_libs.h)
+            "kf-dialect-faces-negative-x-assert", "kf-dialect-hola-leak", "kf-dialect-peel-edgeless",
+            "kf-cola-cml-rerun-leak", "kf-cola-cml-unsatinfo-leak", "kf-cola-unsatinfo-internal-cc-uaf",
+            "kf-cola-unsatinfo-alignment-var-uaf", "kf-cola-makefeasible-hang", "kf-vpsc-addconstraint-oob",
+            "kf-vpsc-static-cycle-leak", "kf-topology-endnode-visibility-assert"]
+KF_TIMEOUT = {"kf-cola-makefeasible-hang": 15}
 
 
 def plan(tier, seed, searching):
     steps = [dict(hargs=["--seed", str(seed), "--tier", tier, "--scale", "8" if searching else "1"], label="main",
                   timeout=3000)]
+    if os.environ.get("C15_SKIP_KF"):        # (debug) main classes only
+        return steps
     for m in KF_MODES:
-        steps.append(dict(hargs=["--mode", m], label=m, timeout=120))
+        steps.append(dict(hargs=["--mode", m], label=m, timeout=KF_TIMEOUT.get(m, 120)))
     return steps
 
 
